@@ -6,5 +6,5 @@ JOBS = [
          enforce='snappy_read_varint', min_loop_obligations=1, **SNAPPY),
     dict(name='c08_snappy_decompress', prop='C08', entry='h_snappy_decompress',
          enforce='carquet_snappy_decompress', replace=['snappy_read_varint'],
-         min_loop_obligations=5, est_s=60, replayer='snappy_decompress', **SNAPPY),
+         min_loop_obligations=5, est_s=60, mem_gb=16, replayer='snappy_decompress', **SNAPPY),
 ]
